@@ -290,9 +290,9 @@ impl CommitPipeline {
 		// Two distinct failure modes inside the section:
 		//   1. `oracle.check` failure: nothing has been allocated, enqueued, or written. Propagate
 		//      the error with `?`; no cleanup.
-		//   2. `env.write` (WAL) failure: oracle entries were already published and the batch was
-		//      enqueued. Roll back those entries (seq-match guard preserves concurrent
-		//      overwriters), drain the queue slot, release the lock, and return the error.
+		//   2. `env.write` (WAL) failure: oracle entries were already published, the batch is not
+		//      enqueued yet. Roll back those entries (seq-match guard preserves concurrent
+		//      overwriters) and return the error; the allocated seqs stay unused.
 		//
 		// Keys are derived from `batch.entries` (single source of truth).
 		// Duplicate keys within a batch (e.g. from savepoint history) are
@@ -330,30 +330,30 @@ impl CommitPipeline {
 			commit_batch.set_seq_num(seq_num);
 			batch.set_starting_seq_num(seq_num);
 
-			// Enqueue (single producer, same critical section as seq alloc).
-			self.pending.enqueue(Arc::clone(&commit_batch));
-
 			// WAL + VLog (serialized under lock).
-			match self.env.write(&batch, seq_num, sync) {
-				Ok(processed) => (processed, seq_num),
+			let processed = match self.env.write(&batch, seq_num, sync) {
+				Ok(processed) => processed,
 				Err(e) => {
 					// WAL failed AFTER oracle.publish. Roll back the entries
 					// we stamped; the seq-match guard leaves concurrent
 					// overwriters untouched.
 					let stamp = seq_num + count - 1;
 					self.oracle.rollback(batch.entries.iter().map(|e| e.key.as_slice()), stamp);
-					// The batch is in `pending` and was never marked applied.
-					// Order matters: complete with Err FIRST, then mark_applied,
-					// so a concurrent publish() can't dequeue and call
-					// complete(Ok) before our Err is set.
+					// The batch was never enqueued: a failed commit must not
+					// occupy a slot of `pending` once its semaphore permit is
+					// released, or failures piling up behind a commit that is
+					// still applying overflow the queue. Its sequence numbers
+					// stay unused; the next commit to publish moves
+					// `visible_seq_num` past them.
 					commit_batch.complete(Err(e.clone()));
-					commit_batch.mark_applied();
-					// Release write_mutex before draining the queue.
-					drop(_guard);
-					self.publish();
 					return Err(e);
 				}
-			}
+			};
+
+			// Enqueue (single producer, same critical section as seq alloc, so
+			// queue order is sequence order).
+			self.pending.enqueue(Arc::clone(&commit_batch));
+			(processed, seq_num)
 		};
 		// === END CRITICAL SECTION ===
 
